@@ -71,6 +71,13 @@ def hist_prop(pid, oracle_props, weights, n_quick, n_thorough, steps_q=10, steps
         ov3, dv3 = runner.explore_list(rep, oracle_props, hs, term=term, extra_oracle=extra_oracle)
         rep.notes.append('small scope: %d of %d two-operation histories run through implementation, model and oracles' % (len(hs), 10201))
         ov, dv = ov + ov3, dv + dv3
+        # fixed histories kept under histories/<id>/: shapes that a seeded change needed and that random generation reaches
+        # only for some seeds (they are inputs, not findings: run like every other history, through implementation, model and oracles)
+        import glob, json as _json, os as _os
+        fixed = [_json.load(open(f))['history'] for f in sorted(glob.glob(_os.path.join(_os.path.dirname(_os.path.dirname(_os.path.abspath(__file__))), 'histories', pid, '*.json')))]
+        if fixed:
+            ov4, dv4 = runner.explore_list(rep, oracle_props, fixed, term=term, extra_oracle=extra_oracle, tag='fixed_histories')
+            ov, dv = ov + ov4, dv + dv4
         if extra:
             ov2, dv2 = extra(rep, rng, tier, term)
             ov, dv = ov + ov2, dv + dv2
